@@ -40,18 +40,48 @@ __attribute__((always_inline)) inline long elem(const V& v, I... i)
 }
 } // namespace cv
 
+namespace cv {
+// C11: whatever the view TYPE claims to know statically must agree with the object's (stated) shape: a fixed shape / dimension / size equals it,
+// a bound is not below it. Traits that report "unknown" (a fail type) claim nothing.
+template <size_t... E, class V>
+__attribute__((always_inline)) inline bool static_knowledge_agrees(const V&)
+{
+    constexpr size_t R = sizeof...(E); constexpr size_t ext[R ? R : 1] = {E...};
+    constexpr size_t N = (E * ... * 1);
+    bool ok = true;
+    constexpr auto fshape = meta::fixed_shape_v<V>;
+    if constexpr (!meta::is_fail_v<decltype(fshape)>) {
+        ok = ok && (size_t)nm::len(fshape) == R;
+        if constexpr ((size_t)meta::len_v<decltype(fshape)> == R) for_<R>([&](auto I){ ok = ok && (size_t)nm::at(fshape, meta::ct_v<I.value>) == ext[I.value]; });
+    }
+    constexpr auto fdim = meta::fixed_dim_v<V>;
+    if constexpr (!meta::is_fail_v<decltype(fdim)>) ok = ok && (size_t)fdim == R;
+    constexpr auto fsize = meta::fixed_size_v<V>;
+    if constexpr (!meta::is_fail_v<decltype(fsize)>) ok = ok && (size_t)fsize == N;
+    constexpr auto bdim = meta::bounded_dim_v<V>;
+    if constexpr (!meta::is_fail_v<decltype(bdim)>) ok = ok && (size_t)bdim >= R;
+    constexpr auto bsize = meta::bounded_size_v<V>;
+    if constexpr (!meta::is_fail_v<decltype(bsize)>) ok = ok && (size_t)bsize >= N;
+    return ok;
+}
+} // namespace cv
+#define STATIC_ID "C11.static_knowledge_of_the_view_type_agrees_with_the_object"
 // ids are string literals (the helper is inlined, the id reaches the obligation call as a constant)
 #define EXPECT_VIEW1(SID, EID, v, E0, WANT, TAG) do { \
     OBLIGE(SID, (cv::shape_is<E0>(v)), E0, TAG); \
+    OBLIGE(STATIC_ID, (cv::static_knowledge_agrees<E0>(v)), E0, TAG, __LINE__); \
     for_<E0>([&](auto I){ constexpr size_t i = I.value; OBLIGE(EID, cv::elem(v, i) == (long)(WANT), E0, TAG, i); }); } while (0)
 #define EXPECT_VIEW2(SID, EID, v, E0, E1, WANT, TAG) do { \
     OBLIGE(SID, (cv::shape_is<E0,E1>(v)), E0*10+E1, TAG); \
+    OBLIGE(STATIC_ID, (cv::static_knowledge_agrees<E0,E1>(v)), E0*10+E1, TAG, __LINE__); \
     for_<E0>([&](auto I){ for_<E1>([&](auto J){ constexpr size_t i = I.value, j = J.value; (void)i; (void)j; OBLIGE(EID, cv::elem(v, i, j) == (long)(WANT), E0*10+E1, TAG, i, j); }); }); } while (0)
 #define EXPECT_VIEW3(SID, EID, v, E0, E1, E2, WANT, TAG) do { \
     OBLIGE(SID, (cv::shape_is<E0,E1,E2>(v)), E0*100+E1*10+E2, TAG); \
+    OBLIGE(STATIC_ID, (cv::static_knowledge_agrees<E0,E1,E2>(v)), E0*100+E1*10+E2, TAG, __LINE__); \
     for_<E0>([&](auto I){ for_<E1>([&](auto J){ for_<E2>([&](auto K){ constexpr size_t i = I.value, j = J.value, k = K.value; (void)i; (void)j; (void)k; OBLIGE(EID, cv::elem(v, i, j, k) == (long)(WANT), E0*100+E1*10+E2, TAG, i*10+j, k); }); }); }); } while (0)
 #define EXPECT_VIEW4(SID, EID, v, E0, E1, E2, E3, WANT, TAG) do { \
     OBLIGE(SID, (cv::shape_is<E0,E1,E2,E3>(v)), E0*1000+E1*100+E2*10+E3, TAG); \
+    OBLIGE(STATIC_ID, (cv::static_knowledge_agrees<E0,E1,E2,E3>(v)), E0*1000+E1*100+E2*10+E3, TAG, __LINE__); \
     for_<E0>([&](auto I){ for_<E1>([&](auto J){ for_<E2>([&](auto K){ for_<E3>([&](auto L){ constexpr size_t i = I.value, j = J.value, k = K.value, l = L.value; (void)i; (void)j; (void)k; (void)l; OBLIGE(EID, cv::elem(v, i, j, k, l) == (long)(WANT), E0*1000+E1*100+E2*10+E3, TAG, i*10+j, k*10+l); }); }); }); }); } while (0)
 
 // ---- fixed-dimension arrays whose shape is a RUN-TIME value (std::array<size_t,R>): the library takes its run-time branches (loops over
